@@ -17,12 +17,32 @@ lemma foldl_add_eq_sum (g : ℕ → ℝ) (n : ℕ) :
   | zero => simp
   | succ n ih => rw [List.range_succ, List.foldl_append, ih, Finset.sum_range_succ]; simp
 
+lemma foldl_congr_range (g g' : ℕ → ℝ) (n : ℕ) (h : ∀ i, i < n → g i = g' i) :
+    (List.range n).foldl (fun acc i => acc + g i) 0 = (List.range n).foldl (fun acc i => acc + g' i) 0 := by
+  rw [foldl_add_eq_sum, foldl_add_eq_sum]
+  exact Finset.sum_congr rfl (fun i hi => h i (Finset.mem_range.mp hi))
+
+/-- over ℝ the exact last sample `b` of `np.linspace` is the grid point `a + n·step` -/
+lemma gridPoint_eq (a b : ℝ) (n i : ℕ) (hi : i ≤ n) (hn : 0 < n) :
+    gridPoint a b n i = a + i * ((b - a) / n) := by
+  unfold gridPoint
+  simp only [RofNat]
+  split_ifs with h
+  · subst h
+    have : (i : ℝ) ≠ 0 := Nat.cast_ne_zero.mpr (Nat.pos_iff_ne_zero.mp hn)
+    field_simp; ring
+  · rfl
+
 lemma trapSigned_eq_sum (f : ℝ → ℝ) (a b : ℝ) (n : ℕ) :
     trapSigned f a b n = ∑ i ∈ Finset.range n,
       (b - a) / n * (f (a + i * ((b - a) / n)) + f (a + ((i + 1 : ℕ) : ℝ) * ((b - a) / n))) / 2 := by
   unfold trapSigned
   simp only [RofNat]
-  exact foldl_add_eq_sum _ n
+  rw [← foldl_add_eq_sum]
+  apply foldl_congr_range
+  intro i hi
+  have hn : 0 < n := lt_of_le_of_lt (Nat.zero_le i) hi
+  rw [gridPoint_eq a b n i hi.le hn, gridPoint_eq a b n (i + 1) hi hn]
 
 /-- one cell: both the trapezoid value and the integral lie between `h f(x)` and `h f(y)` -/
 lemma cell_bound (f : ℝ → ℝ) {x y : ℝ} (hxy : x ≤ y) (hf : MonotoneOn f (Icc x y)) :
